@@ -425,6 +425,57 @@ fn check_nan_kinds(w: &[u8], alpha: &[X], ctx: &mut Ctx) {
     }
 }
 
+/// the percentile of a score among 64-bit integers of magnitude 2^60: the proportions are those of the small
+/// offsets (translation relation; the comparisons are made in the element type, not in f64)
+fn check_percentile_wide(ctx: &mut Ctx) {
+    let fam = "order-wide-percentile";
+    let alpha: Vec<X> = vec![None, Some(0.0), Some(1.0), Some(2.0), Some(3.0)];
+    for w in all_words_upto(alpha.len(), 4) {
+        if w.is_empty() {
+            continue;
+        }
+        let x = decode(&w, &alpha);
+        let offs: Vec<Option<i64>> = x.iter().map(|v| v.map(|a| a as i64)).collect();
+        ctx.states += 1;
+        ctx.fam(fam).states += 1;
+        ctx.nontrivial(fam, hash_bytes(&w));
+        let has_null = x.iter().any(|v| v.is_none());
+        for base in [1i64 << 60, -(1i64 << 60), i64::MAX - 8, (1i64 << 53) + 1] {
+            for s in 0..4i64 {
+                for m in [PMethod::Rank, PMethod::Weak, PMethod::Strict] {
+                    let want = percentile_of(&x, Some(s as f64), m);
+                    for kind in 0..3u8 {
+                        if (kind > 0 && has_null) || (kind == 2 && base < 0) {
+                            continue;
+                        }
+                        ctx.transitions += 1;
+                        let got = mc_adapt::aggs::percentile_of_wide(&offs, s, base, m, kind);
+                        ctx.eval(fam, match &got { Outcome::Ok(c) => c.hash64(), _ => 1 });
+                        let ok = match (&got, want) {
+                            (Outcome::Ok(c), None) => c.is_null(),
+                            (Outcome::Ok(c), Some(wv)) => c.num() == Some(wv),
+                            _ => false,
+                        };
+                        if !ok {
+                            let ename = ["Option<i64>", "i64", "u64 (2^63 + |base|)"][kind as usize];
+                            ctx.violation(Violation {
+                                entry: format!("vpercentile_of({m:?}) on wide integers"),
+                                finding: None,
+                                size: x.len(),
+                                case: json!({"family": fam, "word": w, "offsets": offs, "base": base, "score_offset": s, "elem": ename}),
+                                expected: format!("as on the offsets alone: {want:?}"),
+                                got: format!("{got:?}"),
+                            });
+                        } else {
+                            ctx.traces += 1;
+                        }
+                    }
+                }
+            }
+        }
+    }
+}
+
 fn main() {
     let run = Run::from_args("C12");
     let fam = Fam { alpha: vec![None, Some(0.0), Some(1.0), Some(2.0), Some(3.0)], max_len: run.pick(6, 8), unsigned_len: run.pick(5, 6) };
@@ -444,6 +495,8 @@ fn main() {
         } else if stored["case"]["family"] == "order-ordered-types" {
             let w = syms_from_json(&stored["case"]["word"]);
             check_ordered_types("order-ordered-types", &w, &decode(&w, &ord_alpha()), &mut ctx);
+        } else if stored["case"]["family"] == "order-wide-percentile" {
+            check_percentile_wide(&mut ctx);
         } else if stored["case"]["family"] == "order-int-extremes" {
             check_int_extremes(&syms_from_json(&stored["case"]["word"]), &mut ctx);
         } else if stored["case"]["family"] == "order-nan-kinds" {
@@ -477,10 +530,15 @@ fn main() {
     total.merge(par_items(&nan_words, run.threads, |w, ctx| check_nan_kinds(w, &nan_alpha(), ctx)));
     let ext_words = all_words_upto(ext_alpha().len(), run.pick(4, 5));
     total.merge(par_items(&ext_words, run.threads, |w, ctx| check_int_extremes(w, ctx)));
+    {
+        let mut c = Ctx::new();
+        check_percentile_wide(&mut c);
+        total.merge(c);
+    }
     let long = long_series(!run.quick());
     total.merge(par_items(&long, run.threads, |(label, x), ctx| check_long(label, x, &fam.alpha, ctx)));
     let meta = Meta {
-        rule: "history tree of every word over {null,0,1,2,3}; at each word: vquantile on a q-grid (incl. j/(n-1) and j/(n-1)+-1e-12) x 4 interpolation methods, vmedian, vpercentile_of (every score of the alphabet, 0.5, 2.5, null x 3 methods), vrank (pct x rev), vpartition / varg_partition (k in 0..=len+1 x sort x rev), element types f64 / Option<f64> / i32 / Option<i32>; oracle = sort the non-null values and index. Plus the same operations on long structured series (17..=64 elements: ramps, saws, plateaus, zigzags, modular permutations, with null blocks and periodic null patterns). Non-trivial = word with a non-null element. Also (DESIGN 5.15, 5.16): ranks and partitions of ordered non-numeric element types (order-ordered-types: DateTime ns / ms, Time, TimeDelta, String, Option<i64>, Option<bool>); NaN kinds (order-nan-kinds); unsigned element types u64 / Option<u64> / usize; i32 neighbours further apart than the type's MAX (order-int-extremes, tolerance scaled to the gap). Round 9 (DESIGN 5.18): TimeDelta alphabets with 300 ns steps and with 40000 d steps (beyond the i64 nanosecond count) among the ordered types.".into(),
+        rule: "history tree of every word over {null,0,1,2,3}; at each word: vquantile on a q-grid (incl. j/(n-1) and j/(n-1)+-1e-12) x 4 interpolation methods, vmedian, vpercentile_of (every score of the alphabet, 0.5, 2.5, null x 3 methods), vrank (pct x rev), vpartition / varg_partition (k in 0..=len+1 x sort x rev), element types f64 / Option<f64> / i32 / Option<i32>; oracle = sort the non-null values and index. Plus the same operations on long structured series (17..=64 elements: ramps, saws, plateaus, zigzags, modular permutations, with null blocks and periodic null patterns). Non-trivial = word with a non-null element. Also (DESIGN 5.15, 5.16): ranks and partitions of ordered non-numeric element types (order-ordered-types: DateTime ns / ms, Time, TimeDelta, String, Option<i64>, Option<bool>); NaN kinds (order-nan-kinds); unsigned element types u64 / Option<u64> / usize; i32 neighbours further apart than the type's MAX (order-int-extremes, tolerance scaled to the gap). Round 9 (DESIGN 5.18): TimeDelta alphabets with 300 ns steps and with 40000 d steps (beyond the i64 nanosecond count) among the ordered types. Round 11 (DESIGN 5.20): order-wide-percentile - vpercentile_of on i64 / Option<i64> / u64 series around +-2^60, 2^53+1, i64::MAX-8, 2^63+..: the proportions are those of the small offsets.".into(),
         bounds: json!({"alphabet": json_word(&fam.alpha), "L": fam.max_len, "k": "0..=len+1", "q_grid": "0,.1,.2,.25,.3,1/3,.5,2/3,.7,.75,.9,1, j/(n-1), j/(n-1)+-1e-12"}),
         assumptions: vec!["fractional index within 1e-9 of an integer: either neighbouring reading accepted (DESIGN 5.5)".into(),
             "unsorted partitions compared as multisets; arg-partition index sets with ties accepted when the values form the right multiset (DESIGN 5.6)".into()],
